@@ -147,6 +147,32 @@ def rule_lower(repo: Repo) -> RuleResult:
         r.ok({"step": "'(' + group(1).lower().strip() + ')\\n'", "order": "match order"})
     else:
         r.fail(Finding("C19.lower", f, "step-text", f"an emitted step is not '(' + group(1).lower().strip() + ')' in match order (lower/strip={ok}, group(1)={bool(g1)}, wrapped={wrapped})"))
+    # the pattern is matched against the complete log (a slice needs bounds that were checked)
+    r.site(f.qn + " [searched text]")
+    g = C.cfg_of(f.node)
+    dom = C.dominators(g)
+    scans = [c for c in L.calls_in(f.node) if callee_name(c) in ("finditer", "findall", "search") and len(c.args) >= 2]
+    bad_slice = None
+    for c in scans:
+        for x in p.trace(c.args[1]):
+            if x[0] == "param:planner_output" and any(s.startswith("slice:") for s in x):
+                # find the slicing statement and its bound names
+                for n in ast.walk(f.node):
+                    if isinstance(n, ast.Subscript) and isinstance(n.slice, ast.Slice):
+                        for b in (n.slice.lower, n.slice.upper):
+                            if isinstance(b, ast.Name):
+                                from_find = any(any(s in ("call:find", "call:rfind") for s in y) for y in p.trace(b))
+                                if from_find:
+                                    sn = g.node_containing(n)
+                                    checked = any(isinstance(g.stmt[d], ast.If) and any(isinstance(t, ast.Name) and t.id == b.id for t in ast.walk(g.stmt[d].test))
+                                                  for d in dom[sn]) if sn is not None else False
+                                    if not checked:
+                                        bad_slice = (n, b.id)
+    if bad_slice:
+        r.fail(Finding("C19.lower", f, f"unchecked-find-bound:{bad_slice[1]}", f"{unparse(bad_slice[0], 60)} slices the log with `{bad_slice[1]}` which comes from str.find "
+                       f"and is never compared with -1: when the marker is absent the slice silently drops the end of the log", node=bad_slice[0]))
+    else:
+        r.ok({"searched_text": "the log (slices only with checked bounds)"})
     rets = L.func_returns(f)
     r.site(f.qn + " [result]")
     names = {x.value.id for x in rets if isinstance(x.value, ast.Name)}
@@ -156,7 +182,7 @@ def rule_lower(repo: Repo) -> RuleResult:
         r.ok({"returns": tgt})
     else:
         r.fail(Finding("C19.lower", f, "result", "the collected steps are not what is returned"))
-    r.require_sites(2)
+    r.require_sites(3)
     return r
 
 
@@ -222,5 +248,34 @@ def rule_enhsp(repo: Repo) -> RuleResult:
     return r
 
 
+def rule_cache(repo: Repo, rid: str = "C19.cache", module_filter=None) -> RuleResult:
+    """memoisation decorators keep hidden process-wide state; on a function that reads a file (or takes mutable objects) the
+    cached answer goes stale"""
+    r = RuleResult(rid, "no memoising decorator (lru_cache / cache) on a function that reads external state or receives mutable objects",
+                   "repeating a call returns the result for the CURRENT log / domain, not a remembered one")
+    n = 0
+    for f in repo.all_funcs():
+        if module_filter and not module_filter(f):
+            continue
+        n += 1
+        decos = [ast.unparse(d) for d in f.node.decorator_list]
+        caching = [d for d in decos if any(k in d for k in ("lru_cache", "functools.cache", "cached_property")) or d in ("cache",)]
+        if not caching:
+            continue
+        r.site(L.site(f, None, "cached function"))
+        reads = [c for c in L.calls_in(f.node) if callee_name(c) in ("open", "read_text", "read_bytes", "readlines", "read")]
+        mutable_params = [a for a in f.params if a != f.self_name and (repo.ann_to_type(f.annotations.get(a), f.mod.name) or ("?",))[0] in ("cls", "dict", "list", "set", "union")]
+        if reads or mutable_params or f.is_method:
+            r.fail(Finding(rid, f, "cached-stale", f"@{caching[0]} on {f.qn}: the answer is remembered per argument value although it depends on "
+                           f"{'a file that may be rewritten' if reads else 'mutable objects'}: a later call returns the old result"))
+        else:
+            r.ok({"cached": f.qn, "pure_of_immutable_arguments": True})
+    r.site(f"{n} functions scanned for memoising decorators")
+    r.ok({"functions_scanned": n})
+    r.require_sites(1)
+    return r
+
+
 def rules(repo: Repo, tier: str) -> List[RuleResult]:
-    return [rule_regex(repo), rule_lower(repo), rule_status(repo), rule_enhsp(repo)]
+    return [rule_regex(repo), rule_lower(repo), rule_status(repo), rule_enhsp(repo),
+            rule_cache(repo, "C19.cache", lambda f: "output_parser" in f.mod.short)]
